@@ -29,11 +29,13 @@ import (
 
 	"go.uber.org/zap"
 
+	"github.com/ozontech/seq-db/consts"
 	"github.com/ozontech/seq-db/frac"
 	"github.com/ozontech/seq-db/frac/processor"
 	"github.com/ozontech/seq-db/fracmanager"
 	"github.com/ozontech/seq-db/logger"
 	"github.com/ozontech/seq-db/parser"
+	"github.com/ozontech/seq-db/proxy/bulk"
 	"github.com/ozontech/seq-db/seq"
 	"github.com/ozontech/seq-db/verifhook"
 	"github.com/ozontech/seq-db/zstd"
@@ -415,6 +417,60 @@ type sdoc struct {
 	id  seq.ID
 	svc string
 	val string
+	msg int // index into messages
+	uri int // index into uris
+}
+
+// text-typed (message) and path-typed (request_uri) values of seq.TestMapping: the parse of a filter on them depends
+// on the mapping (a phrase on a text field is the AND of its tokens; with another mapping it is one literal)
+var messages = []string{"", "hello world", "Hello there", "world of hello kitty", "goodbye", "hello", "error: disk full", "Disk is FULL"}
+var uris = []string{"", "/api/v1/users", "/api/v1/orders/7", "/api/v2", "/health"}
+
+var queryPool = []string{
+	`service:a`, `_all_:*`, `_all_:*`,
+	`message:"hello world"`, `message:"world hello"`, `message:"Hello World"`, `message:hello`, `message:"disk full"`,
+	`message:"hello there"`, `service:a and message:"hello world"`, `not message:"hello world"`, `message:"hello kitty" or message:goodbye`,
+	`message:hel*`, `message:"error: disk"`,
+	`request_uri:"/api/v1"`, `request_uri:"/api/v1/users"`, `request_uri:"/api"`, `request_uri:"/api/v1/*"`,
+	`service:in(a, b)`, `service:in(b) or message:"is full"`, `message:in(hello, goodbye)`,
+	`request_duration:[100 to 500]`,
+}
+
+func queryOf(m map[string]string) string {
+	if qx := m["qx"]; qx != "" {
+		return unhex(qx)
+	}
+	if m["q"] == "*" || m["q"] == "" {
+		return seq.TokenAll + ":*"
+	}
+	return "service:" + m["q"]
+}
+
+func docTokens(d sdoc) ([]byte, []seq.Token) {
+	body := fmt.Sprintf(`{"service":%q,"request_duration":%q`, d.svc, d.val)
+	if d.msg > 0 {
+		body += fmt.Sprintf(`,"message":%q`, messages[d.msg%len(messages)])
+	}
+	if d.uri > 0 {
+		body += fmt.Sprintf(`,"request_uri":%q`, uris[d.uri%len(uris)])
+	}
+	body += "}"
+	metas, err := bulk.VerifIndexDoc(seq.TestMapping, consts.DefaultMaxTokenSize, false, false, []byte(body))
+	if err != nil || len(metas) == 0 {
+		panic(fmt.Sprintf("indexing %s: %v", body, err))
+	}
+	var toks []seq.Token
+	hasAll := false
+	for _, t := range metas[0] {
+		toks = append(toks, seq.Token{Field: t.Key, Val: t.Value})
+		if string(t.Key) == seq.TokenAll {
+			hasAll = true
+		}
+	}
+	if !hasAll {
+		toks = append(toks, seq.Token{Field: []byte(seq.TokenAll), Val: []byte{}})
+	}
+	return []byte(body), toks
 }
 
 func kv(f []string) map[string]string {
@@ -515,18 +571,19 @@ func sysChild(phase string) {
 		var docs []sdoc
 		for _, e := range splitList(m["docs"], ",") {
 			p := strings.Split(e, ":")
-			docs = append(docs, sdoc{seq.ID{MID: seq.MID(atou(p[0])), RID: seq.RID(atou(p[1]))}, p[2], p[3]})
+			d := sdoc{id: seq.ID{MID: seq.MID(atou(p[0])), RID: seq.RID(atou(p[1]))}, svc: p[2], val: p[3]}
+			if len(p) >= 6 {
+				d.msg, d.uri = atoi(p[4]), atoi(p[5])
+			}
+			docs = append(docs, d)
 		}
 		groups := strings.Split(m["layout"], ";")
 		for gi, grp := range groups {
 			dp := frac.NewDocProvider()
 			for _, e := range splitList(grp, ",") {
 				d := docs[atoi(e)]
-				toks := []string{"_all_:", "service:" + d.svc}
-				if d.val != "" {
-					toks = append(toks, "request_duration:"+d.val)
-				}
-				dp.Append([]byte(fmt.Sprintf(`{"service":%q,"request_duration":%q}`, d.svc, d.val)), nil, d.id, seq.Tokens(toks...))
+				body, toks := docTokens(d)
+				dp.Append(body, nil, d.id, toks)
 			}
 			if dp.DocCount > 0 {
 				dm, mm := dp.Provide()
@@ -542,10 +599,7 @@ func sysChild(phase string) {
 			}
 		}
 	}
-	query := "service:" + m["q"]
-	if m["q"] == "*" {
-		query = seq.TokenAll + ":*"
-	}
+	query := queryOf(m)
 	params := processor.SearchParams{AggQ: aggQuery(m["agg"]), HistInterval: atou(m["hi"]), From: seq.MID(atou(m["from"])), To: seq.MID(atou(m["to"])),
 		Limit: math.MaxInt32, WithTotal: false, Order: order(m["desc"] == "1")}
 	as := fracmanager.MustStartAsync(fracmanager.AsyncSearcherConfig{DataDir: filepath.Join(dir, "async"), Parallelism: 2}, mapping{}, fm)
@@ -660,7 +714,7 @@ func runChild(phase, dir, line string, tmo time.Duration) (sysOut, int, string) 
 func genSys(g gen, o vh.Opts) []string {
 	var lines []string
 	svcs := []string{"a", "a", "b"}
-	for c := 0; c < o.Pick(40, 400); c++ {
+	for c := 0; c < o.Pick(70, 400); c++ {
 		n := g.r.Range(1, 14)
 		maxMid := []int{8, 60}[g.r.Intn(2)]
 		seen := map[seq.ID]bool{}
@@ -671,7 +725,7 @@ func genSys(g gen, o vh.Opts) []string {
 				continue
 			}
 			seen[id] = true
-			docs = append(docs, fmt.Sprintf("%d:%d:%s:%d", id.MID, id.RID, svcs[g.r.Intn(len(svcs))], g.r.Intn(1000)))
+			docs = append(docs, fmt.Sprintf("%d:%d:%s:%d:%d:%d", id.MID, id.RID, svcs[g.r.Intn(len(svcs))], g.r.Intn(1000), g.r.Intn(len(messages)), g.r.Intn(len(uris))))
 		}
 		k := g.r.Range(1, 4)
 		layout := make([][]int, k)
@@ -693,8 +747,15 @@ func genSys(g gen, o vh.Opts) []string {
 			to = from + g.r.Intn(maxMid)
 		}
 		crash := g.r.Intn(k + 4) // 0 = none; 1 = after the request info; 2..k+1 = after a partial result; k+2 = after Done
-		lines = append(lines, fmt.Sprintf("async docs=%s layout=%s lastActive=%s q=%s desc=%s hi=%d agg=%s from=%d to=%d crash=%d at=%s",
-			strings.Join(docs, ","), strings.Join(lay, ";"), b(g.r.Bool()), []string{"a", "*", "*"}[g.r.Intn(3)], b(g.r.Bool()),
+		if g.r.Chance(1, 2) {
+			crash = g.r.Range(1, k) // restart with fewer than all partial results persisted
+		}
+		query := queryPool[g.r.Intn(len(queryPool))]
+		if _, err := parser.ParseSeqQL(query, seq.TestMapping); err != nil {
+			query = seq.TokenAll + ":*"
+		}
+		lines = append(lines, fmt.Sprintf("async docs=%s layout=%s lastActive=%s qx=%s desc=%s hi=%d agg=%s from=%d to=%d crash=%d at=%s",
+			strings.Join(docs, ","), strings.Join(lay, ";"), b(g.r.Bool()), vh.Hex([]byte(query)), b(g.r.Bool()),
 			[]int{0, 1, 7}[g.r.Intn(3)], []string{"none", "count", "sum"}[g.r.Intn(3)], from, to, crash, []string{"written", "before-rename"}[g.r.Intn(2)]))
 	}
 	return lines
@@ -745,7 +806,9 @@ func runSys(lines []string, orc *vh.Oracle, rep *vh.Report, o vh.Opts) {
 			}
 		}
 		os.RemoveAll(dir)
-		orc.Case(line, crashed && k > 1, "crashed="+b(crashed), "agg="+m["agg"], fmt.Sprintf("fracs=%d", k), "hist="+b(m["hi"] != "0"), "dup="+b(hasDupIdx(m["layout"])))
+		qfield := strings.SplitN(strings.TrimPrefix(queryOf(m), "not "), ":", 2)[0]
+		orc.Case(line, crashed && k > 1, "crashed="+b(crashed), "agg="+m["agg"], fmt.Sprintf("fracs=%d", k), "hist="+b(m["hi"] != "0"), "dup="+b(hasDupIdx(m["layout"])),
+			"query-field="+qfield, "phrase="+b(strings.Contains(queryOf(m), " ") && strings.Contains(queryOf(m), "\"")))
 		switch {
 		case out.Err == "not-found" && crashed && atoi(m["crash"]) == 1 && m["at"] == "before-rename":
 			// killed before the request itself was persisted: it was never acknowledged, nothing to compare
@@ -754,8 +817,12 @@ func runSys(lines []string, orc *vh.Oracle, rep *vh.Report, o vh.Opts) {
 			rep.Violate(vh.Violation{Site: "fracmanager/async_searcher.go:FetchSearchResult", Class: "async-" + out.Err,
 				What: "async search did not produce a result: " + out.Err, Replay: []string{line}})
 		case out.Async != out.Sync:
-			rep.Violate(vh.Violation{Site: "fracmanager/async_searcher.go:FetchSearchResult", Class: asyncClass(out.Async, out.Sync, crashed),
-				What: fmt.Sprintf("async: %s ; sync: %s", out.Async, out.Sync), Replay: []string{line}})
+			site := "fracmanager/async_searcher.go:FetchSearchResult"
+			if crashed { // the first run alone is covered by the uncrashed cases: the difference comes from the resumed doSearch
+				site = "fracmanager/async_searcher.go:doSearch(resumed after restart)"
+			}
+			rep.Violate(vh.Violation{Site: site, Class: asyncClass(out.Async, out.Sync, crashed),
+				What: fmt.Sprintf("query %s, crash point %s/%s: async: %s ; sync: %s", queryOf(m), m["crash"], m["at"], out.Async, out.Sync), Replay: []string{line}})
 		}
 	}
 }
